@@ -20,7 +20,7 @@ void png_mem_write(png_structp png, png_bytep data, png_size_t n)
 void png_mem_flush(png_structp) {}
 
 // colour type / depth / interlace written with libpng directly from random samples
-bool make_libpng(int w, int h, uint64_t cs, Bytes& out, int color_type, int depth, bool interlace, bool trns)
+bool make_libpng(int w, int h, uint64_t cs, Bytes& out, int color_type, int depth, bool interlace, bool trns, bool meta = false)
 {
     png_structp png = png_create_write_struct(PNG_LIBPNG_VER_STRING, nullptr, nullptr, nullptr);
     if (!png) return false;
@@ -44,6 +44,34 @@ bool make_libpng(int w, int h, uint64_t cs, Bytes& out, int color_type, int dept
         png_color_16 t; memset(&t, 0, sizeof t);
         t.gray = 1; t.red = 1; t.green = 2; t.blue = 3;
         png_set_tRNS(png, info, nullptr, 0, &t);
+    }
+    if (meta)
+    {
+        // optional chunks, so that the metadata branches of the reader backend see data
+        png_set_gAMA(png, info, 0.45455);
+        png_set_cHRM(png, info, 0.3127, 0.3290, 0.64, 0.33, 0.30, 0.60, 0.15, 0.06);
+        png_set_pHYs(png, info, 2835, 2835, PNG_RESOLUTION_METER);
+        png_set_oFFs(png, info, 3, 4, PNG_OFFSET_PIXEL);
+        png_color_8 sb; memset(&sb, 0, sizeof sb); sb.red = sb.green = sb.blue = sb.gray = sb.alpha = (png_byte)(depth > 8 ? 8 : depth);
+        png_set_sBIT(png, info, &sb);
+        png_color_16 bg; memset(&bg, 0, sizeof bg); bg.index = 1; bg.red = 10; bg.green = 20; bg.blue = 30; bg.gray = 5;
+        png_set_bKGD(png, info, &bg);
+        png_time tm; memset(&tm, 0, sizeof tm); tm.year = 2020; tm.month = 2; tm.day = 3; tm.hour = 4; tm.minute = 5; tm.second = 6;
+        png_set_tIME(png, info, &tm);
+        png_text txt[2]; memset(txt, 0, sizeof txt);
+        char k1[] = "Title", v1[] = "simulated", k2[] = "Comment", v2[] = "a somewhat longer comment text for the tEXt chunk";
+        txt[0].compression = PNG_TEXT_COMPRESSION_NONE; txt[0].key = k1; txt[0].text = v1; txt[0].text_length = strlen(v1);
+        txt[1].compression = PNG_TEXT_COMPRESSION_zTXt; txt[1].key = k2; txt[1].text = v2; txt[1].text_length = strlen(v2);
+        png_set_text(png, info, txt, 2);
+        if (color_type == PNG_COLOR_TYPE_PALETTE)
+        {
+            png_uint_16 hist[256]; for (int i = 0; i < 256; ++i) hist[i] = (png_uint_16)(i * 3);
+            png_set_hIST(png, info, hist);
+        }
+        else png_set_sRGB(png, info, PNG_sRGB_INTENT_PERCEPTUAL);
+        char unit[] = "mm"; char p0[] = "0.5", p1[] = "2.0"; char* params[2] = {p0, p1}; char purpose[] = "cal";
+        png_set_pCAL(png, info, purpose, 0, 100, PNG_EQUATION_LINEAR, 2, unit, params);
+        png_set_sCAL(png, info, PNG_SCALE_METER, 1.5, 2.5);
     }
     png_write_info(png, info);
     int ch = color_type == PNG_COLOR_TYPE_RGB ? 3 : color_type == PNG_COLOR_TYPE_RGB_ALPHA ? 4 : color_type == PNG_COLOR_TYPE_GRAY_ALPHA ? 2 : 1;
@@ -80,6 +108,9 @@ bool make(std::string const& v, int w, int h, uint64_t cs, Bytes& out)
     if (v == "rgb8i") return make_libpng(w, h, cs, out, PNG_COLOR_TYPE_RGB, 8, true, false);
     if (v == "gray4i") return make_libpng(w, h, cs, out, PNG_COLOR_TYPE_GRAY, 4, true, false);
     if (v == "rgba16i") return make_libpng(w, h, cs, out, PNG_COLOR_TYPE_RGB_ALPHA, 16, true, false);
+    if (v == "rgb8meta") return make_libpng(w, h, cs, out, PNG_COLOR_TYPE_RGB, 8, false, false, true);
+    if (v == "pal8meta") return make_libpng(w, h, cs, out, PNG_COLOR_TYPE_PALETTE, 8, false, false, true);
+    if (v == "gray16meta") return make_libpng(w, h, cs, out, PNG_COLOR_TYPE_GRAY, 16, false, false, true);
     return false;
 }
 
@@ -88,7 +119,7 @@ std::vector<Variant> const& g_fmt_variants()
     static std::vector<Variant> const v = {{"gray1", "gray1"}, {"gray2", "gray2"}, {"gray4", "gray4"}, {"gray8", "gray8"}, {"gray16", "gray16"}, {"ga8", "ga8"}, {"ga16", "ga16"},
                   {"rgb8", "rgb8"}, {"rgb16", "rgb16"}, {"rgba8", "rgba8"}, {"rgba16", "rgba16"},
                   {"pal8", "rgb8"}, {"pal4", "rgb8"}, {"pal1", "rgb8"}, {"pal8trns", "rgba8"}, {"rgb8trns", "rgba8"}, {"gray8trns", "ga8"},
-                  {"rgb8i", "rgb8"}, {"gray4i", "gray4"}, {"rgba16i", "rgba16"}};
+                  {"rgb8i", "rgb8"}, {"gray4i", "gray4"}, {"rgba16i", "rgba16"}, {"rgb8meta", "rgb8"}, {"pal8meta", "rgb8"}, {"gray16meta", "gray16"}};
     return v;
 }
 
